@@ -151,9 +151,9 @@ func main() {
 	work := flag.String("work", "", "scratch directory")
 	only := flag.String("only", "", "only builders whose name contains this")
 	flag.Parse()
-	maxAdd, maxMul, maxDiv := 6, 4, 4
+	maxAdd, maxMul, maxDiv := 6, 5, 4
 	extra := []int{16, 31, 32, 33}
-	mulExtra := []int{6}
+	mulExtra := []int{6, 7}
 	divExtra := []int{}
 	if *tier == "thorough" {
 		maxAdd, maxMul, maxDiv = 10, 6, 6
